@@ -104,7 +104,7 @@ EncX(v, zc) ==
     [] v.t = "obj"     -> <<U8(3)>> \o EncPairs(v.p, zc) \o ObjEnd
     [] v.t = "null"    -> <<U8(5)>>
     [] v.t = "undef"   -> <<U8(6)>>
-    [] v.t = "ecma"    -> <<U8(8), U32X(v.c[1], v.c[2])>> \o EncPairs(v.p, zc) \o ObjEnd
+    [] v.t = "ecma"    -> <<U8(8), U32F(v.c[1], v.c[2])>> \o EncPairs(v.p, zc) \o ObjEnd  \* the count is the writer's choice
     [] v.t = "strict"  -> <<U8(10), U32(Len(v.e))>> \o EncVals(v.e, zc)
     [] v.t = "strictk" -> <<U8(10), U32(IF zc THEN 0 ELSE Len(v.p))>> \o EncPairs(v.p, zc)
 
